@@ -57,6 +57,8 @@ def run_symbolic(h, case, float_mode=None, check_ms=None, max_paths=None, stop_o
     errors = []
 
     def once():
+        from .interp import Env
+        Env.OVERLAY.clear()
         try:
             r = it.call(h.fn, list(case), {})
             from .interp import SCoroutine
@@ -117,6 +119,15 @@ class native_stubs:
                 owner = getattr(owner, p)
             self.saved.append((owner, parts[-1], owner.__dict__[parts[-1]]))
             setattr(owner, parts[-1], spec)
+            if len(parts) == 1:  # a module-level function: also every `from x import f` alias of it
+                import sys
+                for mname, m in list(sys.modules.items()):
+                    if m is None or not mname.startswith("ramses_"):
+                        continue
+                    for k, v in list(vars(m).items()):
+                        if v is real and not (m is owner and k == parts[-1]):
+                            self.saved.append((m, k, v))
+                            setattr(m, k, spec)
         return self
 
     def __exit__(self, *a):
@@ -129,6 +140,15 @@ class native_stubs:
 
 def run_native(h, case):
     api._GHOSTS.clear()
+    try:
+        _run_native(h, case)
+    finally:
+        for mod, name, old in reversed(api._SET_GLOBALS):
+            setattr(mod, name, old)
+        api._SET_GLOBALS.clear()
+
+
+def _run_native(h, case):
     with native_stubs(h):
         r = h.fn(*case)
         if hasattr(r, "send"):
